@@ -206,6 +206,23 @@ C11_WriterTable == \A t \in Targets : wpc[t] \in {"recv", "done"} => (wtable[t] 
 NoSendOnClosed == /\ (clBefore => rpc = "closed") /\ (clAfter => spc = "done")
                   /\ \A t \in Targets : clT[t] => xpc \in {"closing", "done"}
 
+(* ---------------- the counting skeleton (PipelineInt.tla): this machine refines it ---------------- *)
+Taken == (rnext - 1) - Len(qBefore)                   \* features the snapper has received so far
+PI == INSTANCE PipelineInt WITH
+        cpc <- IF cpc = "running" THEN "running" ELSE IF table > 0 THEN "returned" ELSE "idle",
+        rsent <- rnext - 1, rclosed <- (rpc = "closed"), qB <- Len(qBefore),
+        spc <- IF spc \in {"send", "wait"} THEN "send" ELSE IF spc = "done" THEN "done" ELSE "recv",
+        chosen <- [t \in Targets |-> Cardinality({i \in 1..Taken : t \in out[i]})],
+        qA <- [t \in Targets |-> Cardinality({j \in 1..Len(qAfter) : qAfter[j][2] = t})],
+        xpc <- IF xpc \in {"fwd", "closing", "done"} THEN xpc ELSE "recv",
+        hold <- IF xpc = "fwd" THEN xhold[2] ELSE 0,
+        clT <- {t \in Targets : clT[t]},
+        qT <- [t \in Targets |-> Len(qT[t])],
+        got <- [t \in Targets |-> Len(received[t])],
+        wdone <- {t \in Targets : wpc[t] = "done"}
+RefinesInt == PI!Spec
+IntInvHolds == PI!IndInv /\ PI!NoSendOnClosed /\ PI!Complete
+
 (* liveness: the whole job terminates (every run returns), under weak fairness of every process *)
 C11_Terminates == <>(cpc = "finished")
 (* deadlock freedom: TLC's deadlock check is on; the only state without successor is the finished one *)
